@@ -13,9 +13,9 @@ import (
 	"bytes"
 	"context"
 	"encoding/json"
-	stdh "net/http"
 	"fmt"
 	"math/rand"
+	stdh "net/http"
 	"runtime"
 	"sync"
 
@@ -44,6 +44,7 @@ type fix12 struct {
 	ops      []*op12
 	descDump func() string
 	dump0    string
+	idl      string
 }
 
 func truncMid(b []byte) []byte { return append([]byte(nil), b[:len(b)*2/3]...) }
@@ -97,7 +98,7 @@ func newThriftFix(r *rand.Rand) *fix12 {
 	binIn := [][]byte{bins[0], bins[1], truncMid(bins[2]), bins[3]}
 	jsIn := [][]byte{jsons[0], jsons[1], garbleJSON(jsons[2]), jsons[3]}
 	errs := []bool{false, false, true, false}
-	fx := &fix12{troot: root}
+	fx := &fix12{troot: root, idl: idl}
 	fx.ops = []*op12{
 		{name: "t2j.Do", inputs: binIn, isErr: errs, f: func(in []byte) ([]byte, error) { return ct.Do(context.Background(), root, in) }},
 		{name: "j2t.Do", inputs: jsIn, isErr: errs, f: func(in []byte) ([]byte, error) { return cj.Do(context.Background(), root, in) }},
@@ -333,10 +334,10 @@ func (c *c12) conc(fx *fix12, seed int64, ng, per int, tag interface{}) {
 	inputs0 := snapshotInputs(fx)
 	var mu sync.Mutex
 	type rec struct {
-		op             string
-		st, exp        string
-		same           bool
-		g              int
+		op      string
+		st, exp string
+		same    bool
+		g       int
 	}
 	var bad []rec
 	var allHeld [][]held12 = make([][]held12, ng)
